@@ -1,6 +1,7 @@
 package __PKG__
 
 import (
+	"github.com/hashicorp/go-multierror"
 	"context"
 	"errors"
 	"time"
@@ -354,6 +355,13 @@ func (n *pNode) Process(ctx context.Context, e *Event) (*Event, error) {
 	case 6:
 		n.ret = nil
 		n.err = context.Canceled
+	case 7:
+		// an error that is itself a collection of errors is still one warning: the error the node returned
+		n.ret = nil
+		n.err = multierror.Append(nil, &vErr{"cause-1"}, &vErr{"cause-2"})
+	case 8:
+		n.ret = nil
+		n.err = &multierror.Error{}
 	default:
 		n.ret = nil
 		n.err = &vErr{"process"}
@@ -412,7 +420,7 @@ func H_C01_process_seq() {
 		for i := 0; i < ln; i++ {
 			nd := &pNode{pipe: p, pos: i, typ: NodeType(nondetInt()), outcome: nondetInt()}
 			verifAssume(nd.outcome >= 0)
-			verifAssume(nd.outcome <= 6)
+			verifAssume(nd.outcome <= 8)
 			if i == ln-1 {
 				verifAssume(nd.typ == NodeTypeSink)
 			}
